@@ -49,10 +49,11 @@ PROPS = {
     },
     "C07": {
         "level": "exploration",
-        "quick": cfg(16, 30),
-        "thorough": cfg(16, 600),
-        "rule": "scenarios as C05 plus 1/12 'many lifecycles' traces (8-38 boots per ECU with several suspend/resume chains whose start estimates cross); after the detector returned: histogram of msg.lifecycle over all delivered messages (all passes sharing the table) vs nr_msgs of every listed lifecycle, sum, no invalidated entry, get_sorted_lifecycles_as_vec produces a permutation with every resumed lifecycle after its origin (origin id from hook accessor) and sorted by start time when no resume was detected. Non-trivial = >=1 merge or >=1 resume; distinct = (mode, lifecycles, merges, resumed, confirmations, skipped merges, pre-populated).",
-        "floors": {"quick": {"evaluations": 500000, "distinct_nontrivial": 2000, "listings_with_21_or_more_entries": 5000, "path_LcMergeUnbuffered": 1000}, "thorough": {"evaluations": 5000000, "distinct_nontrivial": 5000}},
+        "needs_bin": True,
+        "quick": cfg(16, 30, args=["remote_every=20000"]),
+        "thorough": cfg(16, 600, args=["remote_every=20000"]),
+        "rule": "scenarios as C05 plus 1/12 'many lifecycles' traces (8-38 boots per ECU with several suspend/resume chains whose start estimates cross); after the detector returned: histogram of msg.lifecycle over all delivered messages (all passes sharing the table) vs nr_msgs of every listed lifecycle, sum, no invalidated entry, get_sorted_lifecycles_as_vec produces a permutation with every resumed lifecycle after its origin (origin id from hook accessor) and sorted by start time when no resume was detected. Every 20000th case goes through the remote front door: the trace is written to a file and opened in `adlt remote` running with channel capacities 1/2/7/64 (hook H4), so that the detector blocks in its final flush while the server loop polls the table; once the final FileInfo announced all messages, the lifecycle table the client assembled from the Lifecycles updates (latest per id) must account for every message within 10 s. Non-trivial = >=1 merge or >=1 resume; distinct = (mode, lifecycles, merges, resumed, confirmations, skipped merges, pre-populated).",
+        "floors": {"quick": {"evaluations": 500000, "distinct_nontrivial": 2000, "listings_with_21_or_more_entries": 5000, "path_LcMergeUnbuffered": 1000, "remote_tables_checked": 40}, "thorough": {"evaluations": 5000000, "distinct_nontrivial": 5000}},
         "assumptions": ["runs in which the detector panics are C05 violations and are only counted here"],
     },
     "C08": {
